@@ -3,8 +3,15 @@
 import glob, json, os
 V = os.path.dirname(os.path.dirname(os.path.abspath(__file__)))
 rows = []
+ANN = json.load(open(os.path.join(V, 'seeded', 'ANNOTATIONS.json'))) if os.path.exists(os.path.join(V, 'seeded', 'ANNOTATIONS.json')) else {}
 for f in sorted(glob.glob(os.path.join(V, 'seeded', '*', 'meta.json'))):
     m = json.load(open(f))
+    a = ANN.get(m['id'], {})
+    m.setdefault('summary', ''); m.setdefault('needs_to_manifest', '')
+    m['summary'] = a.get('summary') or m['summary']
+    m['needs_to_manifest'] = a.get('needs_to_manifest') or m['needs_to_manifest']
+    if a.get('first_run'):
+        m['first_run'] = {'status': a['first_run']}
     det = m.get('detected_by', {})
     own = det.get(m['property'], [])
     ids = sorted({x.split(' @ ')[0] for v in det.values() for x in v})
